@@ -25,8 +25,8 @@ GROUPS_THOROUGH = GROUPS_QUICK + [("os2_cap1", -1), ("os2_cap1", 0), ("os2_cap2"
                                   ("os2_max1", 1)]
 
 # which input alphabets of MC_O_events serve which property
-ALPHAS = {"C03": ["events"], "C14": ["events"], "C13": ["events", "ctl"], "C05": ["events", "ctl"],
-          "C04": ["ctl"], "C12": ["ctl", "events"], "C07": ["ctl"], "C11": ["events"]}
+ALPHAS = {"C03": ["events"], "C14": ["events"], "C13": ["events", "ctl", "misc"], "C05": ["events", "ctl", "misc"],
+          "C04": ["ctl"], "C12": ["ctl", "events", "misc"], "C07": ["ctl", "misc"], "C11": ["events"]}
 GROUPS_CTL_QUICK = [("os2_cap1", 1), ("mixed", 0)]
 GROUPS_CTL_THOROUGH = [("os2_cap1", 1), ("mixed", 0), ("os2_cap2", -1), ("os2_max1", 1)]
 
